@@ -1,6 +1,7 @@
 package main
 
 import (
+	"fmt"
 	"context"
 	"io"
 	"reflect"
@@ -98,6 +99,9 @@ func mixConfigs() (a, b xsens.OutputConfiguration, idA, idB uint16) {
 	return
 }
 
+// number of scenarios in which a hammering goroutine never came back
+var hungScenarios int
+
 // concurrentScenario: one receive loop driven by a client that alternates two configurations, while other
 // goroutines call the emulator's methods in free-running loops.  Returns the identifiers concurrent encodes saw.
 func concurrentScenario(rounds, hammerers int, buffered bool, all bool) (seen map[int64]int, cmdErrs int) {
@@ -179,7 +183,14 @@ func concurrentScenario(rounds, hammerers int, buffered bool, all bool) (seen ma
 			}
 		}
 	}()
-	wg.Wait()
+	// a call that never returns (for instance a lock taken on a copy of a held mutex) must not hang the check
+	waited := make(chan struct{})
+	go func() { wg.Wait(); close(waited) }()
+	select {
+	case <-waited:
+	case <-time.After(20 * time.Second):
+		hungScenarios++
+	}
 	cancel()
 	ce.Close()
 	ee.Close()
@@ -208,8 +219,16 @@ func init() {
 					c.dist["encodes-observed"] += n
 				}
 				c.dist["command-errors"] += errs
+				if hungScenarios > 0 {
+					break
+				}
 			}
 			runtime.GOMAXPROCS(old)
+		}
+		if hungScenarios > 0 {
+			// not an identifier any configuration has: the oracle rejects it
+			c.emit("mix", tup("(-2)", allowed))
+			c.dist["hung-scenarios"] += hungScenarios
 		}
 	}
 	// run under the race detector by the driver (bin/harness_race): every method hammered while commands flow
@@ -224,6 +243,13 @@ func init() {
 				c.dist["command-errors"] += errs
 			}
 			runtime.GOMAXPROCS(old)
+			if hungScenarios > 0 {
+				break
+			}
+		}
+		if hungScenarios > 0 {
+			fmt.Println("HANG: a call on the emulator made from another goroutine while the receive loop runs never returned")
+			c.dist["hung-scenarios"] += hungScenarios
 		}
 		c.emit("race", "0")
 	}
